@@ -2,6 +2,10 @@ import Driver.Core
 import Driver.Pure
 import Driver.Vdb
 import Driver.Ledger
+import Driver.Spork
+import Driver.Pool
+import Driver.Rewards
+import Driver.Consensus
 /-
 One line per handler object. The first handler that understands a line answers it.
 -/
@@ -11,7 +15,16 @@ def registry : List Obj := [
   pureObj purePow,
   pureObj pureRpc,
   vdbObj,
-  ledgerObj
+  ledgerObj,
+  sporkObj,
+  pureObj purePool,
+  pureObj pureRewards,
+  mkObj (⟨[], none⟩ : ZV.Pool.PState) poolStep,
+  pureObj pureElection,
+  pureObj pureTicker,
+  pureObj pureBeforeTime,
+  pureObj pureMverify,
+  pureObj pureAddMomentum
 ]
 
 end ZV.Driver
